@@ -6,9 +6,11 @@ import loadgen as G
 import loadrun as L
 
 PROPERTY = 'C18'
-LEAN_MODULES = ['YatimlModel.Props.C18']
+LEAN_MODULES = ['YatimlModel.Props.C18', 'YatimlModel.Props.C18Cycle']
 THEOREMS = ['YatimlModel.C18.' + t for t in [
-    'expand_ofNode', 'C18_transparent', 'alias_to_open_is_cycle', 'C18_cycle_rejected']]
+    'expand_ofNode', 'C18_transparent', 'alias_to_open_is_cycle', 'C18_cycle_rejected',
+    'cycle_only_if_selfRef', 'selfRef_never_expands', 'C18_cycle_only_for_selfRef',
+    'C18_selfRef_never_loads']]
 RULE = ('generated (class model, valid or invalid document) pairs; a sub-node is anchored and another '
         'node (a value, an item or a key, at a position of the same or of a different declared type) is '
         'replaced by an alias to it; the real load of the aliased text is compared with the real load of '
